@@ -190,15 +190,25 @@ class MultiTerm(qcore.Query):
         else:
             return qcore.NullQuery
 
+    def _existing(self, ixreader):
+        # The terms this query expands to; none if the field does not exist
+        # or its type cannot represent the query text
+        if self.field() not in ixreader.schema:
+            return []
+        try:
+            return list(self._btexts(ixreader))
+        except ValueError:
+            return []
+
     def estimate_size(self, ixreader):
         fieldname = self.field()
         return sum(ixreader.doc_frequency(fieldname, btext)
-                   for btext in self._btexts(ixreader))
+                   for btext in self._existing(ixreader))
 
     def estimate_min_size(self, ixreader):
         fieldname = self.field()
-        return min(ixreader.doc_frequency(fieldname, text)
-                   for text in self._btexts(ixreader))
+        return min([ixreader.doc_frequency(fieldname, text)
+                    for text in self._existing(ixreader)] or [0])
 
     def matcher(self, searcher, context=None):
         from whoosh.query import Or
@@ -207,7 +217,7 @@ class MultiTerm(qcore.Query):
         constantscore = self.constantscore
 
         reader = searcher.reader()
-        qs = [Term(fieldname, word) for word in self._btexts(reader)
+        qs = [Term(fieldname, word) for word in self._existing(reader)
               if word]
         if not qs:
             return matching.NullMatcher()
@@ -283,8 +293,12 @@ class PatternQuery(MultiTerm):
 
         from_bytes = field.from_bytes
         for btext in candidates:
-            text = from_bytes(btext)
-            if exp.match(text):
+            try:
+                text = from_bytes(btext)
+            except (ValueError, OverflowError):
+                continue
+            # Terms of non-text fields (e.g. numbers) cannot match a pattern
+            if isinstance(text, text_type) and exp.match(text):
                 yield btext
 
 
